@@ -189,7 +189,7 @@ def loop_shape(chk, cls):
                 chk.bad(rule, name, "the step's demand write happens after the sleep: no step takes effect immediately and every write applies a decision that is one interval old", node=loop, stmt="effect-after-sleep")
                 verdict_ok = False
         # O9.3 period agreement
-        sleep_arg = se[1][2][0] if se[1][2] else None
+        sleep_arg = se[1][2][0] if se[1][2] else (dict((k_, v_) for k_, v_ in se[1][3] if k_).get("seconds"))
         r3 = "O9.3"
         if sleep_arg is None:
             chk.bad(r3, name, "trio.sleep called without a period", node=loop, stmt=show(se[1]))
@@ -262,8 +262,14 @@ def buffer_rules(chk):
             return
         chk.undecided(rule, name, "Buffer.demand is a property; buffering idiom not recognised", node=cls.node)
         return
-    if "demand" not in cls.class_attrs and "demand" not in cls.fields:
-        chk.bad(rule, name, "Buffer does not shadow the forwarding demand property: every write goes straight to the target", node=cls.node)
+    if "demand" not in cls.class_attrs:
+        chk.bad(
+            rule,
+            name,
+            "Buffer does not shadow the inherited forwarding `demand` property with a class-level attribute (a property on a base class wins over an instance attribute): every demand write goes straight to the target, also between window boundaries",
+            node=cls.node,
+            stmt="demand-not-shadowed",
+        )
         return
     # (b) who writes target.demand inside Buffer
     run = prog.lookup_method(cls, "run")
@@ -458,6 +464,11 @@ def run(chk):
         chk.guard("O9.2", cls.qual, loop_shape, chk, cls)
     chk.guard("O9.4", "Buffer", buffer_rules, chk)
     chk.guard("O9.5", "FactoryPool", factory_run, chk)
+    from . import c15
+
+    res = chk.guard("O15.3", c15.FACTORY, c15.discover, chk)
+    if res:
+        chk.guard("O15.3", c15.FACTORY, c15.reap, chk, *res)
 
 
 def run_thorough(chk):
